@@ -886,9 +886,13 @@ func (vfs *MemFS) Rename(oldpath, newpath string) error {
 
 		switch nc := nChild.(type) {
 		case *fileNode:
+			nc.Lock()
 			nc.delete()
+			nc.Unlock()
 		case *symlinkNode:
+			nc.Lock()
 			nc.delete()
+			nc.Unlock()
 		default:
 			err := error(avfs.ErrFileExists)
 			if vfs.OSType() == avfs.OsWindows {
